@@ -127,6 +127,21 @@ fn record_file_with(c: i32, body: usize) -> Vec<u8> {
     f
 }
 
+/// A valid .dbf with one row (built once).
+fn one_row_dbf() -> Vec<u8> {
+    use std::sync::OnceLock;
+    static DBF: OnceLock<Vec<u8>> = OnceLock::new();
+    DBF.get_or_init(|| {
+        let mut cur = Cursor::new(Vec::new());
+        {
+            let mut w = crate::e_c10::table_builder().build_with_dest(&mut cur);
+            w.write_record(&crate::e_c10::row(0)).expect("harness: dbf row");
+        }
+        cur.into_inner()
+    })
+    .clone()
+}
+
 fn record_file(c: i32) -> Vec<u8> {
     record_file_with(c, 16)
 }
@@ -135,11 +150,18 @@ fn check_record(c: i32, rep: &mut Report) {
     if valid(c) {
         return; // content would have to be a well-formed body; C03 covers that
     }
-    for body in [16usize, 0, 8] {
+    for body in [16usize, 0, 8, 44, 100] {
         check_record_layout(c, body, rep);
     }
     check_index_header(c, rep);
+    if !cfg!(miri) && (c as u32) % 64 == 5 {
+        if let Some(dir) = TMP_DIR.get() {
+            check_index_header_by_path(c, dir, rep);
+        }
+    }
 }
+
+static TMP_DIR: std::sync::OnceLock<String> = std::sync::OnceLock::new();
 
 /// A valid one-record Point .shp with an index whose HEADER carries type code `c`: opening the
 /// pair must fail with the invalid-shape-type error carrying the value.
@@ -160,6 +182,34 @@ fn check_index_header(c: i32, rep: &mut Report) {
         Err(p) => format!("panic {}", p.class()),
     };
     rep.violation("index-header-error", &format!("record:{}", c), J::obj(vec![("code", J::Int(c as i64)), ("got", J::s(what)), ("what", J::s("type word of the .shx header"))]));
+}
+
+/// The same pair on disk, opened by path (sampled: the files are written to the temp dir of the run).
+fn check_index_header_by_path(c: i32, dir: &str, rep: &mut Report) {
+    if valid(c) {
+        return;
+    }
+    let shp = record_file_with(1, 16);
+    let mut shx = header_bytes(c).to_vec();
+    shx[24..28].copy_from_slice(&54i32.to_be_bytes());
+    shx.extend_from_slice(&50i32.to_be_bytes());
+    shx.extend_from_slice(&10i32.to_be_bytes());
+    let base = format!("{}/c19_{}_{}", dir, c as u32, std::thread::current().name().map(|n| n.len()).unwrap_or(0));
+    let base = format!("{}_{:?}", base, std::thread::current().id()).replace(['(', ')'], "");
+    if std::fs::write(format!("{}.shp", base), &shp).is_err() || std::fs::write(format!("{}.shx", base), &shx).is_err() {
+        return;
+    }
+    let r = panicmon::catch(|| ShapeReader::from_path(format!("{}.shp", base)).map(|_| ()));
+    let _ = std::fs::remove_file(format!("{}.shp", base));
+    let _ = std::fs::remove_file(format!("{}.shx", base));
+    rep.count("index_headers_opened_by_path", 1);
+    let what = match r {
+        Ok(Err(Error::InvalidShapeType(x))) if x == c => return,
+        Ok(Err(e)) => crate::shapes::err_class(&e),
+        Ok(Ok(())) => "Ok(reader)".to_string(),
+        Err(p) => format!("panic {}", p.class()),
+    };
+    rep.violation("index-header-error/by-path", &format!("record:{}", c), J::obj(vec![("code", J::Int(c as i64)), ("got", J::s(what)), ("what", J::s("type word of the .shx header, pair opened with ShapeReader::from_path"))]));
 }
 
 fn check_record_layout(c: i32, body: usize, rep: &mut Report) {
@@ -198,9 +248,37 @@ fn check_record_layout(c: i32, body: usize, rep: &mut Report) {
         shx.extend_from_slice(&(((4 + body) / 2) as i32).to_be_bytes());
         let mut rd = ShapeReader::with_shx(Cursor::new(f.clone()), Cursor::new(shx.clone())).map_err(|e| ("nth", crate::shapes::err_class(&e)))?;
         judge(rd.read_nth_shape(0).map(|r| r.map(|_| ()))).map_err(|e| ("nth", e))?;
-        let mut rd = ShapeReader::with_shx(Cursor::new(f), Cursor::new(shx)).map_err(|e| ("nth-typed", crate::shapes::err_class(&e)))?;
+        let mut rd = ShapeReader::with_shx(Cursor::new(f.clone()), Cursor::new(shx.clone())).map_err(|e| ("nth-typed", crate::shapes::err_class(&e)))?;
         let first = for_type!(typed_as, S => rd.read_nth_shape_as::<S>(0).map(|r| r.map(|_| ())));
-        judge(first).map_err(|e| ("nth-typed", e))
+        judge(first).map_err(|e| ("nth-typed", e))?;
+        // iteration and read() through the index: the entry is not skipped, the call fails
+        let mut rd = ShapeReader::with_shx(Cursor::new(f.clone()), Cursor::new(shx.clone())).map_err(|e| ("iter-indexed", crate::shapes::err_class(&e)))?;
+        judge(rd.iter_shapes().next().map(|r| r.map(|_| ()))).map_err(|e| ("iter-indexed", e))?;
+        let rd = ShapeReader::with_shx(Cursor::new(f.clone()), Cursor::new(shx.clone())).map_err(|e| ("read-indexed", crate::shapes::err_class(&e)))?;
+        judge(Some(rd.read().map(|_| ()))).map_err(|e| ("read-indexed", e))?;
+        // the complete reader next to a one-row table
+        let rd = ShapeReader::new(Cursor::new(f.clone())).map_err(|e| ("Reader::read", crate::shapes::err_class(&e)))?;
+        let db = shapefile::dbase::Reader::new(Cursor::new(one_row_dbf())).map_err(|_| ("Reader::read", "harness: dbf".to_string()))?;
+        judge(Some(shapefile::Reader::new(rd, db).read().map(|_| ()))).map_err(|e| ("Reader::read", e))?;
+        // the code in the SECOND record, behind a valid point record, without index: the iteration
+        // yields the point and then the error, it does not just end
+        if body == 16 {
+            let mut two = record_file_with(1, 16);
+            two.extend_from_slice(&2i32.to_be_bytes());
+            two.extend_from_slice(&10i32.to_be_bytes());
+            two.extend_from_slice(&c.to_le_bytes());
+            two.extend_from_slice(&[0u8; 16]);
+            let w = (two.len() / 2) as i32;
+            two[24..28].copy_from_slice(&w.to_be_bytes());
+            let mut rd = ShapeReader::new(Cursor::new(two)).map_err(|e| ("second-record", crate::shapes::err_class(&e)))?;
+            let mut it = rd.iter_shapes();
+            match it.next() {
+                Some(Ok(_)) => {}
+                other => return Err(("second-record", format!("first record: {}", match other { None => "None".to_string(), Some(Err(e)) => crate::shapes::err_class(&e), _ => String::new() }))),
+            }
+            judge(it.next().map(|r| r.map(|_| ()))).map_err(|e| ("second-record", e))?;
+        }
+        Ok(())
     });
     match r {
         Ok(Ok(())) => {}
@@ -216,6 +294,11 @@ fn check_record_layout(c: i32, body: usize, rep: &mut Report) {
 
 pub fn run(ctx: &Ctx) -> Report {
     let mut total = Report::default();
+    if !cfg!(miri) {
+        let d = format!("{}/files", ctx.out);
+        let _ = std::fs::create_dir_all(&d);
+        let _ = TMP_DIR.set(d);
+    }
 
     // ---- the 14 table rows: predicates, display names, `as i32`
     for c in ALL_CODES {
